@@ -124,12 +124,60 @@ def twin(rng, p):
     return "".join(c if c.isspace() else rng.choice(MARK) for c in p)
 
 
+WIDTH_POOLS = {1: "abcdefghjkmnpqrtuvwxyzBCDEFGHJKLMNQRTVWXYZ2345678", 2: "\u00e9\u00fc\u00f1\u00f8\u0416\u0449\u03bb\u03a9", 3: "\u5bc6\u7801\u6c34\u706b\u5c71\u20ac", 4: "\U0001f511\U0001f600\U00010348"}
+WIDTH_OBS = {"n": 0, "example": None}
+
+
+def peer(rng, p):
+    """same length, same whitespace skeleton and the same UTF-8 width character by character, every non-blank
+    character replaced by a different plain character of its width"""
+    out = []
+    for c in p:
+        if c.isspace():
+            out.append(c)
+            continue
+        try:
+            w = len(c.encode("utf-8"))
+        except UnicodeEncodeError:
+            out.append(c)
+            continue
+        out.append(rng.choice([x for x in WIDTH_POOLS[w] if x != c]))
+    return "".join(out)
+
+
+def only_byte_length(rng, p, base, rerun):
+    """p and its marker twin logged differently.  The twin has the same number of characters but (markers are 3
+    bytes wide) usually another ENCODED length, and "at most its length is revealed" allows a record to depend on
+    the length of the password as sent (e.g. a byte count of the line).  Adjudicate with a third run on a peer
+    of p with the same character widths: equal to p's -> the difference is attributable to the encoded length
+    alone (counted as an observation); different -> the log depends on the characters: violation."""
+    q = peer(rng, p)
+    if q == p or len(q.encode("utf-8", "surrogatepass")) != len(p.encode("utf-8", "surrogatepass")):
+        return False
+    try:
+        other = rerun(q)
+    except Exception:
+        return False
+    if other != base:
+        return False
+    WIDTH_OBS["n"] += 1
+    WIDTH_OBS["example"] = WIDTH_OBS["example"] or {"password": p, "peer": q}
+    return True
+
+
 # ---------------------------------------------------------------------------- capture
+TRACE = 1  # the lowest level a record can have: "at any log level" quantifies over the logger configuration
+
+
 class Capture(logging.Handler):
+    """handler AND loggers at level 1 (not DEBUG): a record emitted at a custom level below DEBUG, or behind
+    `logger.isEnabledFor(<custom level>)`, is captured too.  Every logger of the aioftp namespace that exists
+    when the capture starts (aioftp.client, aioftp.server, any new aioftp.<module>) is switched to level 1."""
+
     NAMES = ("aioftp.client", "aioftp.server", "aioftp", "asyncio")
 
     def __init__(self):
-        super().__init__(logging.DEBUG)
+        super().__init__(TRACE)
         self.records = []
         self._seen = set()
 
@@ -141,11 +189,17 @@ class Capture(logging.Handler):
     def __enter__(self):
         self.saved = []
         root = logging.getLogger()
-        for lg in [root] + [logging.getLogger(n) for n in self.NAMES]:
+        names = list(self.NAMES) + [
+            n for n, lg in logging.root.manager.loggerDict.items()
+            if isinstance(lg, logging.Logger) and n.startswith("aioftp.") and n not in self.NAMES
+        ]
+        for lg in [root] + [logging.getLogger(n) for n in names]:
             self.saved.append((lg, lg.level, lg.propagate, lg.disabled))
-            lg.setLevel(logging.DEBUG)
+            lg.setLevel(TRACE)
             lg.disabled = False
-            lg.addHandler(self)
+            lg.propagate = True
+            if lg.name in self.NAMES or lg is root:
+                lg.addHandler(self)
         self.saved_disable = logging.root.manager.disable
         logging.disable(logging.NOTSET)
         return self
@@ -155,6 +209,7 @@ class Capture(logging.Handler):
             lg.removeHandler(self)
             lg.setLevel(level)
             lg.disabled = dis
+            lg.propagate = prop
         logging.disable(self.saved_disable)
 
 
@@ -240,6 +295,9 @@ class NullWriter:
     def close(self):
         pass
 
+    def get_extra_info(self, name, default=None):
+        return ("127.0.0.1", 50000) if name in ("peername", "sockname") else default
+
     def write(self, b):
         pass
 
@@ -248,6 +306,8 @@ class NullWriter:
 
 
 class CapStream:
+    socket_timeout = None
+
     def __init__(self):
         self.data = b""
 
@@ -274,6 +334,8 @@ def impl_parse_command(loop, server, data):
             return ("decode", None)
         except ValueError:
             return ("toolong", None)
+        except Exception as e:  # whatever a modified implementation raises is an observation
+            return ("raised:" + type(e).__name__, None)
 
     with Capture() as cap:
         res = loop.run_until_complete(go())
@@ -288,6 +350,8 @@ def impl_client_command(loop, client, cmd, k):
             return "ok"
         except UnicodeEncodeError:
             return "encode"
+        except Exception as e:
+            return "raised:" + type(e).__name__
 
     with Capture() as cap:
         res = loop.run_until_complete(go())
@@ -315,9 +379,10 @@ def mk_manager(spec, fault):
 
 
 def session_setup(kd, q):
-    """login outcome kind -> (users, user name, authenticate raises?)"""
+    """login outcome kind -> (users, user name, authenticate raises?); SESSION_LOGINS gives the number of login() calls"""
     conf = q.rstrip()
     return {
+        "relogin": ([("u", conf)], "u", False),
         "accepted": ([("u", conf)], "u", False),
         "rejected": ([("u", OTHER_PW)], "u", False),
         "unknown-user": ([("u", conf)], "nobody", False),
@@ -327,8 +392,20 @@ def session_setup(kd, q):
     }[kd]
 
 
+SESSION_LOGINS = {"relogin": 2}
+
+
+def raw_spec(seq, q):
+    """user table of a raw sequence: the marker password is always the CONFIGURED password of user u"""
+    return [("u", q.rstrip())] + ([("v", OTHER_PW)] if seq == "switch-user" else [])
+
+
 def raw_script(seq, V, q):
     return {
+        # USER again on the same control connection: after a completed login, towards another user, before PASS
+        "relogin-same-user": ["USER u", f"{V} {q}", "USER u", f"{V} {q}"],
+        "switch-user": ["USER u", f"{V} {q}", "USER v", f"{V} {q}", "USER nobody", "USER u"],
+        "user-user-pass": ["USER u", "USER u", f"{V} {q}", "USER u"],
         "pass-before-user": [f"{V} {q}"],
         "wrong-right-again": ["USER u", f"{V} {OTHER_PW}", f"{V} {q}", f"{V} {q}", f"{V} {OTHER_PW}"],
         "unknown-user-then-pass": ["USER nobody", f"{V} {q}"],
@@ -337,8 +414,9 @@ def raw_script(seq, V, q):
     }[seq]
 
 
-def run_client_session(users_spec, user, password, debug=False, fault=False):
-    """real Server + real Client.login on simnet; returns (outcome, canon records)"""
+def run_client_session(users_spec, user, password, debug=False, fault=False, logins=1):
+    """real Server + real Client.login (`logins` times on the same control connection) on simnet;
+    returns (outcome, canon records)"""
 
     async def main(net):
         if debug:
@@ -347,15 +425,19 @@ def run_client_session(users_spec, user, password, debug=False, fault=False):
         await server.start("127.0.0.1", 2121)
         client = aioftp.Client()
         await client.connect("127.0.0.1", 2121)
-        try:
-            await client.login(user, password)
-            outcome = "logged-in"
-        except aioftp.StatusCodeError as e:
-            outcome = "status:" + ",".join(str(c) for c in e.received_codes)
-        except UnicodeEncodeError:
-            outcome = "unencodable"
-        except Exception as e:  # e.g. the server dropped the connection: an outcome, not an abort
-            outcome = "raised:" + type(e).__name__
+        outs = []
+        for _ in range(logins):
+            try:
+                await client.login(user, password)
+                outs.append("logged-in")
+            except aioftp.StatusCodeError as e:
+                outs.append("status:" + ",".join(str(c) for c in e.received_codes))
+            except UnicodeEncodeError:
+                outs.append("unencodable")
+            except Exception as e:  # e.g. the server dropped the connection: an outcome, not an abort
+                outs.append("raised:" + type(e).__name__)
+                break
+        outcome = "+".join(outs)
         client.close()
         await net.settle()
         await server.close()
@@ -493,8 +575,38 @@ def login_scripts(depth):
     return out
 
 
-def run_scripted_login(groups, user, password, account, debug=False):
-    """the REAL aioftp.Client (connect, login) against a scripted peer on simnet.  The peer greets, then sends
+def is_delay(g):
+    return isinstance(g, dict)
+
+
+def delayed_scripts(depth, timeout):
+    """every script of at most `depth` continuing replies with a silence longer than the client's socket_timeout
+    inserted at every position (before the reply to USER, to ACCT, to PASS, inside nothing: groups are atomic), and
+    every script of depth <= 1 with a silence shorter than the timeout before every reply"""
+    out = []
+    for groups in login_scripts(depth):
+        for j in range(len(groups) + 1):
+            out.append(groups[:j] + [{"delay": 2 * timeout}] + groups[j:])
+    for groups in login_scripts(min(depth, 1)):
+        out.append([x for g in groups for x in ({"delay": timeout / 2}, g)])
+    return out
+
+
+def effective_lines(groups, timeout):
+    """the wire lines the client gets to read: everything before the first silence that outlasts its socket_timeout"""
+    out = []
+    for g in groups:
+        if is_delay(g):
+            if timeout is not None and g["delay"] > timeout:
+                break
+            continue
+        out += [l + "\r\n" for l in g]
+    return out
+
+
+def run_scripted_login(groups, user, password, account, debug=False, timeout=None):
+    """the REAL aioftp.Client (connect, login) against a scripted peer on simnet.  A group {"delay": d} is d seconds
+    of silence (virtual time); `timeout` is the client's socket_timeout.  The peer greets, then sends
     the next group of reply lines whenever the client has gone quiet (so the client sees the flat line
     stream whatever it sent), and hangs up when the script is exhausted while the client still waits.
     Returns (outcome, commands received by the peer, canon records logged during login())."""
@@ -512,7 +624,7 @@ def run_scripted_login(groups, user, password, account, debug=False):
             got.set()
 
         srv = await asyncio.start_server(handler, "127.0.0.1", 2121)
-        client = aioftp.Client()
+        client = aioftp.Client(socket_timeout=timeout)
         await client.connect("127.0.0.1", 2121)
         await got.wait()
         await net.settle()
@@ -536,7 +648,10 @@ def run_scripted_login(groups, user, password, account, debug=False):
         for g in groups:
             if task.done():
                 break
-            peer["w"].write("".join(l + "\r\n" for l in g).encode("utf-8"))
+            if is_delay(g):
+                await asyncio.sleep(g["delay"])
+            else:
+                peer["w"].write("".join(l + "\r\n" for l in g).encode("utf-8"))
             await net.settle()
         if not task.done():
             peer["w"].close()
@@ -559,12 +674,12 @@ def run_scripted_login(groups, user, password, account, debug=False):
     return outcome, sent, [canon(r) for r in cap.records[state["n0"] :]]
 
 
-def scripted_pair(rng, groups, user, p, account, debug=False):
+def scripted_pair(rng, groups, user, p, account, debug=False, timeout=None):
     """run one script with p and with its marker twin; returns (runs, oracle failures)"""
     runs = []
     for q in (p, twin(rng, p)):
         try:
-            outcome, sent, cs = run_scripted_login(groups, user, q, account, debug=debug)
+            outcome, sent, cs = run_scripted_login(groups, user, q, account, debug=debug, timeout=timeout)
         except Exception as e:  # harness-level failure: an observation, the search goes on
             outcome, sent, cs = "harness:" + type(e).__name__ + ":" + str(e)[:80], [], []
         runs.append((q, outcome, sent, cs))
@@ -574,7 +689,13 @@ def scripted_pair(rng, groups, user, p, account, debug=False):
     if hit:
         fails.append(("leak", hit))
     if o1 != o2 or transcript(c1) != transcript(c2):
-        fails.append(("twin", first_diff(transcript(c1), transcript(c2))))
+
+        def rerun(q):
+            o, _, c = run_scripted_login(groups, user, q, account, debug=debug, timeout=timeout)
+            return (o, transcript(c))
+
+        if not only_byte_length(rng, p1, (o1, transcript(c1)), rerun):
+            fails.append(("twin", first_diff(transcript(c1), transcript(c2))))
     return runs, fails
 
 
@@ -589,15 +710,17 @@ def correspondence(ctx, budget=None):
         "F1: parse_command on lines verb x separator x argument x ending (verbs: 6 PASS spellings, other verbs, non-ASCII "
         "look-alikes; arguments from a generator biased to blanks, '%'/'{}' directives, '*', non-ASCII, 1 char, up to 20000 chars), "
         "each with its marker twin; F2: client.command over commands x censor_after in {None,0,1,4,5,6,-1,-2,50}; "
-        "S1: real Client.login vs real Server on simnet for 6 login outcomes (incl. authenticate() raising) x passwords, each run twice (p and twin), a share "
-        "with asyncio debug mode; S2: raw scripts for 6 verb spellings x 5 login sequences (incl. authenticate() raising) x passwords, twice each; "
+        "S1: real Client.login vs real Server on simnet for 7 login kinds (incl. authenticate() raising, login() twice on one connection) x passwords, each run twice (p and twin), a share "
+        "with asyncio debug mode; S2: raw scripts for 6 verb spellings x 8 login sequences (incl. authenticate() raising, USER again after a login / towards another user / before PASS) x passwords, twice each; "
         "S3: real Client.connect+login against a scripted peer, bounded-exhaustive over every word of <= 3 (thorough 5) continuing "
         "replies {331, 332, two-line 331} followed by {230, four-line 230, 530, 421, 333, EOF}, plus malformed scripts (code change "
-        "inside a multi-line reply, non-numeric / short / empty lines, 120), thorough: + random words; users x accounts rotate, "
+        "inside a multi-line reply, non-numeric / short / empty lines, 120), plus a client with socket_timeout=3 against every script of "
+        "depth <= 2 with a 6 s silence at every position and 1.5 s silences before every reply; thorough: + random words; users x accounts rotate, "
         "each script run with a password and its marker twin. "
         "A case is non-trivial when its (stream, verb/outcome, password) key is new."
     )
     xcheck = []
+    WIDTH_OBS.update(n=0, example=None)
     ctx.extra["censor_commands_default"] = censor
 
     # ------------------------------------------------------------ F1
@@ -648,7 +771,10 @@ def correspondence(ctx, budget=None):
                         "server log record contains a character of the PASS argument",
                         {"key": "c20-line-leak", "verb": v, "sep": sep, "password": p, "end": e, "record": list(hit[0][:5]), "found": hit[1]},
                     )
-                if prev is not None and transcript(prev[1]) != transcript(cs):
+                if prev is not None and transcript(prev[1]) != transcript(cs) and not only_byte_length(
+                    rng, prev[0], transcript(prev[1]),
+                    lambda q: transcript(impl_parse_command(loop, server, (v + sep + q + e).encode("utf-8", "surrogatepass"))[1]),
+                ):
                     ctx.violation(
                         "server log differs between two PASS arguments of equal length",
                         {"key": "c20-line-twin", "verb": v, "sep": sep, "password": prev[0], "twin": p, "end": e,
@@ -691,7 +817,9 @@ def correspondence(ctx, budget=None):
                         "client log record contains a character of the password",
                         {"key": "c20-client-command-leak", "command": cmd, "censor_after": k, "record": list(hit[0][:5]), "found": hit[1]},
                     )
-                if prev is not None and transcript(prev[1]) != transcript(cs):
+                if prev is not None and transcript(prev[1]) != transcript(cs) and not only_byte_length(
+                    rng, prev[0][5:], transcript(prev[1]), lambda q: transcript(impl_client_command(loop, client, "PASS " + q, k)[1])
+                ):
                     ctx.violation(
                         "client log differs between two passwords of equal length",
                         {"key": "c20-client-command-twin", "command": prev[0], "twin": cmd, "censor_after": k},
@@ -702,7 +830,7 @@ def correspondence(ctx, budget=None):
     ctx.count("F2_client_commands", len(cjobs))
 
     # ------------------------------------------------------------ S1: real client logins
-    kinds = ["accepted", "rejected", "unknown-user", "anonymous", "no-password-user", "auth-fault"]
+    kinds = ["accepted", "rejected", "unknown-user", "anonymous", "no-password-user", "auth-fault", "relogin"]
     s1 = []
     pws = [p for p in PW_FIXED if "\n" not in p]
     n_s1 = 120 * scale
@@ -727,10 +855,12 @@ def correspondence(ctx, budget=None):
             debug = idx % 7 == 0
             ctx.case(("S1", kd, q))
             ctx.traces_impl += 1
-            outcome, cs = run_client_session(spec, user, q, debug=debug, fault=fault)
+            outcome, cs = run_client_session(spec, user, q, debug=debug, fault=fault, logins=SESSION_LOGINS.get(kd, 1))
             outcomes[(kd, outcome)] = outcomes.get((kd, outcome), 0) + 1
             pair.append((q, spec, user, outcome, cs))
-            if not fault:  # the session model has no failing user manager: oracle only for that kind
+            if kd == "relogin":  # fn 4 models one login(); the raw re-USER sequences of S2 are compared with the model
+                pass
+            elif not fault:  # the session model has no failing user manager: oracle only for that kind
                 s1_runs.append((kd, q, spec, user, outcome, cs))
             else:
                 n_fault_logged += any(c[2] == "dispatcher caught exception" and c[5] == "RuntimeError" for c in cs)
@@ -743,7 +873,12 @@ def correspondence(ctx, budget=None):
                     {"key": "c20-session-leak", "driver": "client", "kind": kd, "password": p2, "logger": hit[0][0],
                      "record": list(hit[0][:5]), "found": hit[1]},
                 )
-            if o1 != o2 or transcript(c1) != transcript(c2):
+            def rerun1(q, kd=kd):
+                spec, user, fault = session_setup(kd, q)
+                o, c = run_client_session(spec, user, q, fault=fault, logins=SESSION_LOGINS.get(kd, 1))
+                return (o, transcript(c))
+
+            if (o1 != o2 or transcript(c1) != transcript(c2)) and not only_byte_length(rng, p1, (o1, transcript(c1)), rerun1):
                 ctx.violation(
                     "log transcripts of two logins with passwords of equal length differ",
                     {"key": "c20-session-twin", "driver": "client", "kind": kd, "password": p1, "twin": p2, "outcomes": [o1, o2],
@@ -751,7 +886,7 @@ def correspondence(ctx, budget=None):
                 )
     ctx.extra["S1_outcomes"] = {f"{k[0]}:{k[1]}": v for k, v in sorted(outcomes.items())}
     expected_out = {"accepted": "logged-in", "rejected": "status:530", "unknown-user": "status:530", "anonymous": "logged-in", "no-password-user": "logged-in",
-                    "auth-fault": "raised:ConnectionResetError"}
+                    "auth-fault": "raised:ConnectionResetError", "relogin": "logged-in+logged-in"}
     for (kd, oc), n in outcomes.items():
         if expected_out[kd] != oc:
             ctx.disagree("S1-outcome", kd, expected_out[kd], oc)
@@ -780,8 +915,9 @@ def correspondence(ctx, budget=None):
 
     # ------------------------------------------------------------ S2: raw scripts, verb spellings
     s2_runs = []
-    seqs = ["pass-before-user", "wrong-right-again", "unknown-user-then-pass", "bare-pass", "auth-fault"]
-    n_s2 = 120 * scale
+    seqs = ["pass-before-user", "wrong-right-again", "unknown-user-then-pass", "bare-pass", "auth-fault",
+            "relogin-same-user", "switch-user", "user-user-pass"]
+    n_s2 = 192 * scale
     for i in range(n_s2):
         V = SPELLINGS[i % len(SPELLINGS)]
         seq = seqs[(i // len(SPELLINGS)) % len(seqs)]
@@ -789,8 +925,7 @@ def correspondence(ctx, budget=None):
         end = "\r\n" if i % 5 else "\n"
         pair = []
         for q in (p, twin(rng, p)):
-            conf = q.rstrip()
-            spec = [("u", conf)]
+            spec = raw_spec(seq, q)
             script = raw_script(seq, V, q)
             chunks = [(l + end).encode("utf-8", "surrogatepass") for l in script]
             ctx.case(("S2", V, seq, q, end))
@@ -807,7 +942,11 @@ def correspondence(ctx, budget=None):
                 {"key": "c20-session-leak", "driver": "raw", "verb": V, "sequence": seq, "password": p2, "end": end,
                  "logger": hit[0][0], "record": list(hit[0][:5]), "found": hit[1]},
             )
-        if r1 != r2 or transcript(c1) != transcript(c2):
+        def rerun2(q, seq=seq, V=V, end=end):
+            r, c = run_raw_session(raw_spec(seq, q), [(l + end).encode("utf-8", "surrogatepass") for l in raw_script(seq, V, q)], fault=(seq == "auth-fault"))
+            return (r, transcript(c))
+
+        if (r1 != r2 or transcript(c1) != transcript(c2)) and not only_byte_length(rng, p1, (r1, transcript(c1)), rerun2):
             ctx.violation(
                 "log transcripts of two raw sessions with PASS arguments of equal length differ",
                 {"key": "c20-session-twin", "driver": "raw", "verb": V, "sequence": seq, "password": p1, "twin": p2, "end": end,
@@ -832,16 +971,26 @@ def correspondence(ctx, budget=None):
     prog, prog_why = login_program()
     ctx.extra["login_program"] = {"translated": prog_why is None, "why_not": prog_why, "program": enc_program(prog)}
     depth = 3 + (2 if thorough else 0) + (1 if budget else 0)
-    scripts = login_scripts(depth) + MALFORMED
+    S3_TIMEOUT = 3
+    scripts = [(g, None) for g in login_scripts(depth) + MALFORMED]
+    # the exception paths of command() while a command is outstanding: EOF (final None above), malformed replies
+    # (above) and the client's socket_timeout expiring during a silence of the peer
+    scripts += [(g, S3_TIMEOUT) for g in delayed_scripts(2 + (1 if thorough else 0), S3_TIMEOUT)]
     if thorough or budget:
         for _ in range(300 * scale):  # random words over all reply shapes, malformed lines included
             pool = CONT + [f for f in FINAL if f] + [g for m in MALFORMED for g in m]
-            scripts.append([rng.choice(pool) for _ in range(rng.randint(1, 7))])
+            w = [rng.choice(pool) for _ in range(rng.randint(1, 7))]
+            if rng.random() < 0.3:
+                w.insert(rng.randrange(len(w) + 1), {"delay": rng.choice([1, 2, 5, 10])})
+                scripts.append((w, S3_TIMEOUT))
+            else:
+                scripts.append((w, None))
     s3_pws = [p for p in PW_FIXED if p.strip()]
     s3_runs = []
     s3_out = {}
     n_pass = 0
-    for i, groups in enumerate(scripts):
+    n_timeouts = 0
+    for i, (groups, tmo) in enumerate(scripts):
         p = s3_pws[i % len(s3_pws)] if i % 4 else gen_password(rng, long_ok=(i % 16 == 0))
         if not p.strip():
             p = "x" + p
@@ -851,16 +1000,18 @@ def correspondence(ctx, budget=None):
             p = "pw"
         user = S3_USERS[i % len(S3_USERS)]
         account = S3_ACCOUNTS[(i // 3) % len(S3_ACCOUNTS)]
-        ctx.case(("S3", tuple(tuple(g) for g in groups), p, user, account))
+        ctx.case(("S3", repr(groups), tmo, p, user, account))
         ctx.traces_impl += 2
-        runs, fails = scripted_pair(rng, groups, user, p, account, debug=(i % 11 == 0))
+        runs, fails = scripted_pair(rng, groups, user, p, account, debug=(i % 11 == 0), timeout=tmo)
         for q, outcome, sent, cs in runs:
-            s3_out[outcome.split(":")[0]] = s3_out.get(outcome.split(":")[0], 0) + 1
+            okey = outcome if outcome.startswith("raised:") else outcome.split(":")[0]
+            s3_out[okey] = s3_out.get(okey, 0) + 1
             if any(l == "PASS " + q for l in sent):
                 n_pass += 1
-            s3_runs.append((groups, user, q, account, outcome, cs))
+                n_timeouts += outcome == "raised:TimeoutError" and sent[-1] == "PASS " + q
+            s3_runs.append((groups, user, q, account, outcome, cs, tmo))
         for kind, info in fails:
-            rp = {"key": "c20-login-script-" + kind, "driver": "scripted-server", "script": groups, "user": user, "password": runs[0][0],
+            rp = {"key": "c20-login-script-" + kind, "driver": "scripted-server", "script": groups, "socket_timeout": tmo, "user": user, "password": runs[0][0],
                   "twin": runs[1][0], "account": account, "outcomes": [runs[0][1], runs[1][1]], "commands_received": runs[1][2]}
             if kind == "leak":
                 rp.update({"logger": info[0][0], "record": list(info[0][:5]), "found": info[1]})
@@ -869,24 +1020,27 @@ def correspondence(ctx, budget=None):
                 rp["diff"] = info
                 ctx.violation("log transcripts of Client.login against the same scripted server differ for two passwords of equal length", rp)
     mo = ctx.model(
-        [(6, [enc_program(prog), user, q, account, [l + "\r\n" for g in groups for l in g]]) for groups, user, q, account, outcome, cs in s3_runs]
+        [(6, [enc_program(prog), user, q, account, effective_lines(groups, tmo)]) for groups, user, q, account, outcome, cs, tmo in s3_runs]
     )
-    for (groups, user, q, account, outcome, cs), o in zip(s3_runs, mo):
+    for (groups, user, q, account, outcome, cs, tmo), o in zip(s3_runs, mo):
         cli = client_body(split_loggers(cs)[1])
         mc = [mrec(x) for x in o]
         if mc != [irec(c) for c in cli]:
             ctx.disagree("S3-client-records", [groups, user, q, account, outcome], mc, [irec(c) for c in cli])
         if len(q) < 8 and 2 <= len(groups) < 5 and sum(1 for x in xcheck if x[0] == 6) < 8:
             if True:
-                xcheck.append((6, [enc_program(prog), user, q, account, [l + "\r\n" for g in groups for l in g]], o))
+                xcheck.append((6, [enc_program(prog), user, q, account, effective_lines(groups, tmo)], o))
     ctx.count("S3_scripted_logins", len(s3_runs))
     ctx.count("S3_scripts", len(scripts))
     ctx.count("S3_logins_that_sent_PASS", n_pass)
+    ctx.count("S3_logins_timed_out_waiting_for_the_reply_to_PASS", n_timeouts)
+    if n_timeouts == 0:
+        ctx.disagree("S3-non-vacuity", "no scripted login timed out while PASS was outstanding", ">0", 0)
     ctx.extra["S3_outcomes"] = dict(sorted(s3_out.items()))
     if n_pass == 0:
         ctx.disagree("S3-non-vacuity", "no scripted login sent a PASS command", ">0", 0)
     if s3_runs:
-        groups, user, q, account, outcome, cs = s3_runs[min(len(s3_runs) - 1, 2 * 31)]
+        groups, user, q, account, outcome, cs, tmo = s3_runs[min(len(s3_runs) - 1, 2 * 31)]
         ctx.sample({"stream": "S3", "script": groups, "user": user, "password": q, "account": account, "outcome": outcome,
                     "records": [list(c[:5]) for c in cs if c[0] != "asyncio"][:12]})
 
@@ -920,6 +1074,7 @@ def correspondence(ctx, budget=None):
                 {"key": "c20-traceback-leak", "case": name, "record": list(hit[0][:5]), "found": hit[1]},
             )
     ctx.extra["out_of_domain_observations"] = obs
+    ctx.extra["twin_differences_attributable_to_encoded_length_only"] = dict(WIDTH_OBS)
 
     ok, out = core.vm_crosscheck(EXTRACT, xcheck)
     ctx.extra["vm_compute_crosscheck"] = {"cases": len(xcheck), "agree": ok}
@@ -982,7 +1137,7 @@ def replay(ctx, data):
         res = []
         for q in (p, twin(rng, p)):
             spec, user, fault = session_setup(kd, q)
-            outcome, cs = run_client_session(spec, user, q, fault=fault)
+            outcome, cs = run_client_session(spec, user, q, fault=fault, logins=SESSION_LOGINS.get(kd, 1))
             for c in cs:
                 print(c[:5])
             res.append(cs)
@@ -994,14 +1149,14 @@ def replay(ctx, data):
         for q in (p, twin(rng, p)):
             conf = q.rstrip()
             script = raw_script(seq, V, q)
-            _, cs = run_raw_session([("u", conf)], [(l + end).encode("utf-8", "surrogatepass") for l in script], fault=(seq == "auth-fault"))
+            _, cs = run_raw_session(raw_spec(seq, q), [(l + end).encode("utf-8", "surrogatepass") for l in script], fault=(seq == "auth-fault"))
             for c in cs:
                 print(c[:5])
             res.append(cs)
         return has_marker(res[1]) is None and transcript(res[0]) == transcript(res[1])
     if key in ("c20-login-script-leak", "c20-login-script-twin"):
         p = r.get("twin") or r["password"]
-        runs, fails = scripted_pair(rng, r["script"], r["user"], p, r["account"])
+        runs, fails = scripted_pair(rng, r["script"], r["user"], p, r["account"], timeout=r.get("socket_timeout"))
         for q, outcome, sent, cs in runs:
             print("password", repr(q), "outcome", outcome, "peer received", sent)
             for c in cs:
